@@ -294,8 +294,10 @@ class GLRParser(Parser):
 
                     new_results = [parent] + results
 
-                    if last_parent is None:
-                        last_parent = parent
+                    # The last child on this path. It must be tracked per
+                    # path as parents of the same node may end at different
+                    # positions (e.g. an empty reduction after layout).
+                    path_last_parent = parent if last_parent is None else last_parent
 
                     traversed = traversed or (
                         update_parent and update_parent.head == node
@@ -307,7 +309,7 @@ class GLRParser(Parser):
                                 parent.root,
                                 new_results,
                                 length,
-                                last_parent,
+                                path_last_parent,
                                 traversed,
                             )
                         )
@@ -318,7 +320,7 @@ class GLRParser(Parser):
                             production,
                             NodeNonTerm(None, new_results, production=production),
                             parent.start_position,
-                            last_parent.end_position,
+                            path_last_parent.end_position,
                         )
 
     def _reduce(
